@@ -81,7 +81,9 @@ def writeStep (o : SaveOpts) (ss1 : SSt) (mp : Str) : SSt :=
     else
       let newMp := if want then mp ++ 46 :: o.format else mp.take (mp.length - ((compr.getD []).length + 1))
       let st' : St := { ss2.st with
-        loaded := (ss2.st.loaded.filter (·.1 != mp)).filter (·.1 != newMp) ++ [(newMp, es'.map (·.1))],
+        -- the renamed Manifest keeps its position in the load order (repair of finding F29: re-inserted at the
+        -- end, a later save of the same loader processed it before a same-directory Manifest it references)
+        loaded := (ss2.st.loaded.filter (·.1 != newMp)).map (fun kv => if kv.1 == mp then (newMp, es'.map (·.1)) else kv),
         top := if ss2.st.top == mp then newMp else ss2.st.top }
       { ss2 with st := st', renamed := ss2.renamed ++ [(mp, newMp)],
                  written := setAdd (ss2.written.filter (· != mp)) newMp,
@@ -125,12 +127,44 @@ def saveOne (w : World) (post : Str → Option FileMeta) (o : SaveOpts) (ss : SS
     else if signFor ss1.st mp && !ss1.st.keyUsable then .error .signing
     else .ok (writeStep o ss1 mp)
 
-/-- the order in which `save_manifests` visits the loaded Manifests: deepest directory first;
-    within one directory in *reverse* load order, so that a Manifest referenced by a sibling
-    (always loaded after its referrer) is written before the referrer's entry for it is
-    refreshed (repair of finding F16) -/
+/-- the Manifests of `x`'s own directory that its MANIFEST entries refer to, in entry order -/
+def sameDirRefsOf (x : Str × Str × List Entry) : List Str :=
+  x.2.2.filterMap fun e =>
+    match e with
+    | .file .MANIFEST p _ _ =>
+      let full := pjoin x.2.1 p
+      if dirname full == x.2.1 then some full else none
+    | _ => none
+
+/-- the accumulator of `queue_manifest`: the order built so far, and the paths queued -/
+abbrev QAcc := List (Str × Str × List Entry) × List Str
+
+/-- one reference of the Manifest being queued: `if fullpath in by_path …: queue_manifest(by_path[fullpath])` -/
+def queueStep (all : List (Str × Str × List Entry)) (recur : QAcc → (Str × Str × List Entry) → QAcc)
+    (a : QAcc) (r : Str) : QAcc :=
+  match all.find? (·.1 == r) with
+  | some y => recur a y
+  | none => a
+
+/-- `queue_manifest(kdv)` (gemato/recursiveloader.py, in `save_manifests`): the Manifests of the same
+    directory that `x` references are queued first, then `x` itself; the fuel bounds the recursion depth
+    (at most one level per loaded Manifest) -/
+def queueManifest (all : List (Str × Str × List Entry)) : Nat → QAcc → (Str × Str × List Entry) → QAcc
+  | 0, acc, _ => acc
+  | fuel + 1, acc, x =>
+    if acc.2.contains x.1 then acc
+    else
+      let acc1 := (sameDirRefsOf x).foldl (queueStep all (queueManifest all fuel)) (acc.1, x.1 :: acc.2)
+      (acc1.1 ++ [x], acc1.2)
+
+/-- the order in which `save_manifests` visits the loaded Manifests: deepest directory first, within
+    one directory in *reverse* load order (repair of finding F16), and then every Manifest referenced
+    from its own directory moved before its referrer explicitly (repair of finding F30: it can have
+    been loaded first when yet another Manifest lists it too), so that a Manifest referenced by a
+    sibling is written before the sibling's entry for it is refreshed -/
 def saveOrder (lm : LoadedMs) : List (Str × Str × List Entry) :=
-  sortByDirLenDesc ((lm.map fun (k, v) => (k, dirname k, v)).reverse)
+  let byDepth := sortByDirLenDesc ((lm.map fun (k, v) => (k, dirname k, v)).reverse)
+  (byDepth.foldl (queueManifest byDepth (byDepth.length + 1)) ([], [])).1
 
 /-- `save_manifests(...)`; the final assertion ("Unlinked but updated Manifests") is the internal error -/
 def saveAll (w : World) (post : Str → Option FileMeta) (s : St) (o : SaveOpts) : Except Err (St × List Write) :=
